@@ -2132,6 +2132,9 @@ func decodeExtendedVniEgress(data *[]byte) (SFlowExtendedVniEgressRecord, error)
 	rec := SFlowExtendedVniEgressRecord{}
 	var fdf SFlowFlowDataFormat
 
+	if len(*data) < 12 {
+		return rec, errors.New("extended VNI egress record too small")
+	}
 	*data, fdf = (*data)[4:], SFlowFlowDataFormat(binary.BigEndian.Uint32((*data)[:4]))
 	rec.EnterpriseID, rec.Format = fdf.decode()
 	*data, rec.FlowDataLength = (*data)[4:], binary.BigEndian.Uint32((*data)[:4])
